@@ -176,7 +176,11 @@ func main() {
 		"api_batch_posts_page-size-9999", "api_batch_posts_with_entries_sharing_key", "api_batch_shared_key_app-prefix",
 		"api_batch_shared_key_pool-prefix", "api_mixed_batch_foreign_entries",
 		"api_neighbour_batches_forced_adjacency", "api_neighbour_adjacency_nonsts_then_sts_omitted",
-		"api_neighbour_adjacency_omitted_then_with_apptype", "api_neighbour_entries_apptype_omitted_judged"}
+		"api_neighbour_adjacency_omitted_then_with_apptype", "api_neighbour_entries_apptype_omitted_judged",
+		"key_kindpairs_kind-with-builtin-prefix", "key_kindpairs_kind-with-builtin-suffix", "key_kindpairs_kind-plural-of",
+		"key_kindpairs_kind-case-variant-of", "key_kindpairs_judged", "api_kindpairs_kind-with-builtin-prefix",
+		"api_kindpairs_kind-with-builtin-suffix", "api_kindpairs_judged", "api_kindpairs_filter_queries",
+		"api_kindpairs_crossposts"}
 	for _, k := range need {
 		if run.Counter(k) == 0 {
 			run.Inconclusive("counter " + k + " is zero: the situation was never observed")
